@@ -408,8 +408,21 @@ def rejected_family():
     return out
 
 
+def main_family():
+    """`main` with a return type other than int whose last block is open (no implicit `ret 0` may appear: RetMatchesSig),
+    falling off the end and with an early `return;` - one unit per variant, there is one main per program"""
+    out = []
+    for tn, ty, pre in (("void", "void", ""), ("double", "double", ""), ("float", "float", ""), ("long", "long", ""),
+                        ("struct", "struct R", "struct R { long a; long b; long c; };\n"), ("int", "int", ""),
+                        ("unsigned", "unsigned", ""), ("ptr", "char *", "")):
+        out.append(("main-falloff-" + tn, pre + "int x;\n%s main(void) { x = 1; }\n" % ty))
+        out.append(("main-early-" + tn, pre + "int x;\n%s main(int argc, char **argv) { if (argc) { x = 2; return%s; } while (x) x--; }\n" % (
+            ty, "" if ty == "void" else " (%s){0}" % ty if ty == "struct R" else " 0")))
+    return out
+
+
 def pinned_units(targets):
-    fam = PINNED + rejected_family()
+    fam = PINNED + rejected_family() + main_family()
     return [Unit("pinned:%s@%s" % (n, t), "pinned", src, t) for n, src in fam for t in targets]
 
 
